@@ -117,24 +117,24 @@ RemoveCells(S, ix, clear, D) ==
 RemoveVerticesCells(S, ix, clear, D) ==
     LET n == Len(S.verts)
         R == IxSet(ix) IN
-    IF \E i \in R : i > n - 1 THEN Res("refused", S)                        \* cell_object.py:127-131
+    IF \E i \in R : i > n - 1 THEN Res("refused", S)                        \* cell_object.py:129-133
     ELSE
-    LET kept == (0..(n-1)) \ R                                               \* vert_index, :133-134
-        S1 == [S EXCEPT !.verts = DeleteIdx(@, R)]                           \* :135-138
-        t == TrimChildren(S.data, "VERTEX", R, D, clear)                     \* :139
+    LET kept == (0..(n-1)) \ R                                               \* vert_index, :135-136
+        S1 == [S EXCEPT !.verts = DeleteIdx(@, R)]                           \* :137-140
+        t == TrimChildren(S.data, "VERTEX", R, D, clear)                     \* :141
         S2 == [S1 EXCEPT !.data = t.data]
-        \* :141-142 new_index = ones ; new_index[vert_index] = arange(n_kept)
+        \* :143-144 new_index = ones ; new_index[vert_index] = arange(n_kept)
         newIndex == [i \in 0..(n-1) |-> IF i \in R THEN 1 ELSE Cardinality({j \in kept : j < i})]
-        \* :143 cells with a removed vertex
+        \* :145 cells with a removed vertex
         touched == {c \in 0..(Len(S.cells)-1) : \E a \in 1..Arity : S.cells[c+1][a] \in R}
     IN  IF t.err THEN Res("error", S2)
         ELSE IF touched = {} /\ "NoTouchRaises" \in D
         \* as built: remove_cells(np.where(...)) gets an empty index array, np.max([]) raises
-        \* (cell_object.py:97-99) and line :144 (renumbering) is never reached
+        \* (cell_object.py:97-99) and line :146 (renumbering) is never reached
         THEN Res("error", S2)
-        ELSE LET r == DropCells(S2, touched, FALSE, D) IN                    \* :143 (clear_cache is not passed on)
+        ELSE LET r == DropCells(S2, touched, FALSE, D) IN                    \* :145 (clear_cache is not passed on)
              IF r.out # "ok" THEN r                                          \* cells dropped, not renumbered
-             ELSE Res("ok", [r.st EXCEPT !.cells =                          \* :144 cells = new_index[cells]
+             ELSE Res("ok", [r.st EXCEPT !.cells =                          \* :146 cells = new_index[cells]
                                 [c \in DOMAIN r.st.cells |-> [a \in 1..Arity |-> newIndex[r.st.cells[c][a]]]]])
 
 RemoveVertices(S, ix, clear, D) ==
@@ -144,22 +144,22 @@ RemoveVertices(S, ix, clear, D) ==
 \* The copy becomes the object under observation (the harness also checks the source is untouched).
 MaskedCopy(S, mask, D) ==
     LET n == Len(S.verts) IN
-    IF Len(mask) # n THEN Res("refused", S)                                  \* points.py:148-152, cell_object.py:165-169
+    IF Len(mask) # n THEN Res("refused", S)                                  \* points.py:148-152, cell_object.py:163-167
     ELSE
     LET R == {i \in 0..(n-1) : ~mask[i+1]}
         kept == (0..(n-1)) \ R
-        newId == [i \in 0..(n-1) |-> IF i \in R THEN 1 ELSE Cardinality({j \in kept : j < i})]  \* cell_object.py:175-176
-        CR == {c \in 0..(Len(S.cells)-1) : \E a \in 1..Arity : S.cells[c+1][a] \in R}            \* ~cell_mask, :178-179
-        kc == DeleteIdx(S.cells, CR)                                                             \* :181-184
+        newId == [i \in 0..(n-1) |-> IF i \in R THEN 1 ELSE Cardinality({j \in kept : j < i})]  \* cell_object.py:173-174
+        CR == {c \in 0..(Len(S.cells)-1) : \E a \in 1..Arity : S.cells[c+1][a] \in R}            \* ~cell_mask, :176-177
+        kc == DeleteIdx(S.cells, CR)                                                             \* :179-182
     IN Res("ok", [verts |-> DeleteIdx(S.verts, R),
                   cells |-> [c \in DOMAIN kc |-> [a \in 1..Arity |-> newId[kc[c][a]]]],
                   cids  |-> DeleteIdx(S.cids, CR),
-                  data  |-> [p \in DOMAIN S.data |->                                             \* data.py:84-108
+                  data  |-> [p \in DOMAIN S.data |->                                             \* data.py:87-108
                                IF ~S.data[p].has THEN S.data[p]
                                ELSE [S.data[p] EXCEPT !.vals = DeleteIdx(@, IF S.data[p].assoc = "VERTEX" THEN R ELSE CR)]]])
 
 \* cell_object.py:148-231 copy(cell_mask=...) without a vertex mask: every vertex is kept, the cells and
-\* the CELL data are sub-sampled (:181-184, :206-211), VERTEX data are copied whole (child_mask = mask = None)
+\* the CELL data are sub-sampled (:181-182, :206-211), VERTEX data are copied whole (child_mask = mask = None)
 CellMaskedCopy(S, cmask, D) ==
     \* (cell_mask is not validated by geoh5py; masks of another length are left to numpy and not offered here)
     LET CR == {c \in 0..(Len(S.cells)-1) : ~cmask[c+1]} IN
